@@ -116,6 +116,20 @@ func init() {
 				})
 			})
 		}
+		// Part 1a: names that differ only in case are different names (no merging), with other bullets and mixed root styles
+		for n := 2; n <= 5 && !c.Expired(); n++ {
+			enum.DepthSeqs(n, func(d []int) {
+				enum.Tuples(n, 3, func(t []int) {
+					if !c.Take() || c.Expired() {
+						return
+					}
+					names := enum.Pick([]string{"a", "A", "é"}, t)
+					c.StateN(1)
+					c01One(c, d, names, c01Spellings[0], fmtTuples[0])
+					c01One(c, d, names, enum.Spelling{Unit: "\t", Bullets: []byte("*+"), Heading: true, ListRootsFirst: 1}, fmtTuples[1])
+				})
+			})
+		}
 		// Part 1b: wide fan-out (collection-size thresholds): one parent with k distinct children, then child i is
 		// written again with a grandchild (must merge into the i-th child), for every k <= K and every i
 		maxK := 20
